@@ -123,10 +123,15 @@ CLAIMED = {
         "the error cases of a call (undefined function, wrong argument count, DEF at the prompt) and the return protocol (the body's value is kept, "
         "everything down to the return address is dropped, control returns to the saved address, variables untouched); mangled parameter names "
         "contain a '.', and the scanner -- for every source text, post passes included -- produces no identifier containing one, so a parameter's "
-        "storage name is no identifier of any line and binding it leaves every variable a program can name unchanged (Props/C10.v, Proofs/LexIdent.v).",
+        "storage name is no identifier of any line and binding it leaves every variable a program can name unchanged; the call itself: entering puts "
+        "the return address under the arguments with the first argument on top and control at the function's code; the parameter stores, the code "
+        "of a body free of nested calls and RETURN then leave the body's value -- evaluated with the parameters bound and every other variable as it "
+        "is at call time -- on the caller's stack, whatever lies below untouched, and return behind the call (Props/C10.v, Proofs/LexIdent.v, "
+        "FnCall.v, FnBody.v).",
         "programs with nested calls, same-named globals, DEFtype settings, arity errors and recursion on model and crate, compared with Spec/Sem.v, "
         "which binds parameters in a local environment typed by their own names.",
-        "PARTIAL: call-time evaluation of the other variables, nesting and the stack discipline end to end are decided by the monitor, not proved.",
+        "PARTIAL: bodies that call functions or read arrays (nesting), the layout of DEF's code as emitted by the code generator, and recursion "
+        "ending in OUT OF MEMORY are decided by the monitor, not proved.",
         "Coq theorems on the call protocol and on the privacy of parameter names + model/implementation/reference-semantics differential check"),
     "C11": entry(
         "the cursor column is the number of characters since the last newline, across items and statements; ',' prints 14 - col mod 14 blanks; TAB(n) "
